@@ -148,22 +148,29 @@ class Ctx:
                 bad.append(f"{os.path.relpath(path, LEAN_DIR)}: {m.group(0).strip()}")
         if bad:
             self.obligation_breaks.append({"what": "audit-grep", "detail": "; ".join(bad[:10])})
-        src = open(self.property_file(), encoding="utf-8").read()
-        ns = re.search(r"^namespace\s+(\S+)", src, re.M)
-        ns = ns.group(1) if ns else ""
-        self.theorems = re.findall(r"^theorem\s+(\S+)", strip_lean_comments(src), re.M)
+        # theorems of the property file and of every Properties/* file it imports
+        names = []
+        for path in [self.property_file()] + [q for q in self.import_closure()
+                                              if os.sep + "Properties" + os.sep in q and q != self.property_file()]:
+            src = open(path, encoding="utf-8").read()
+            ns = re.search(r"^namespace\s+(\S+)", src, re.M)
+            ns = ns.group(1) if ns else ""
+            for t in re.findall(r"^theorem\s+(\S+)", strip_lean_comments(src), re.M):
+                if not t.endswith("_placeholder"):
+                    names.append((ns + "." if ns else "") + t)
+        self.theorems = [n.split(".")[-1] for n in names]
         if not self.build_ok:
             return
         os.makedirs(os.path.join(LEAN_DIR, ".audit"), exist_ok=True)
         path = os.path.join(LEAN_DIR, ".audit", f"{self.prop}.lean")
         with open(path, "w") as f:
             f.write(f"import {self.lean_module}\n")
-            for t in self.theorems:
-                f.write(f"#print axioms {ns + '.' if ns else ''}{t}\n")
+            for full in names:
+                f.write(f"#print axioms {full}\n")
         p = subprocess.run(["lake", "env", "lean", path], cwd=LEAN_DIR, capture_output=True, text=True, timeout=900)
         out = p.stdout + p.stderr
-        for t in self.theorems:
-            full = f"{ns + '.' if ns else ''}{t}"
+        for full in names:
+            t = full.split(".")[-1]
             m = re.search(r"'" + re.escape(full) + r"' depends on axioms: \[(.*?)\]", out, re.S)
             if m:
                 ax = [a.strip() for a in m.group(1).replace("\n", " ").split(",") if a.strip()]
